@@ -682,5 +682,7 @@ def replay(ctx, path):
     print("op    %s\nimpl  %s\nmodel %s" % (op[:400], got[:400], (model or "")[:400]))
     found, key, what = search(ctx, exe, op, got)
     bad = found or (model is not None and got != model)
+    if not bad:
+        what = "implementation-only test of the property passes" + ("; output equals the recorded model output" if model else "")
     print("property C03 %s on the current tree (%s)" % ("VIOLATED" if bad else "holds", what))
     return 1 if bad else 0
